@@ -1,7 +1,9 @@
 """k-bounded list model for the multi-lock algorithms: a lock list is instantiated with a concrete length n and its
-elements are the abstract objects LIST.[0] .. LIST.[n-1]; slice/Vec iteration, enumerate, ranges, indexing and
-for_each are interpreted on that shape, so loop counters and cursors are literals and the ordinary per-receiver
-typestate decides which element is held.  Nothing is executed; lock outcomes stay symbolic."""
+elements are the abstract objects LIST.[0] .. LIST.[n-1]; slice/Vec iteration, the usual iterator adaptors
+(enumerate, take, skip, rev, copied, take_while, filter, inspect, map) and consumers (next, for_each, count, all, any),
+ranges and indexing are interpreted on that shape, so loop counters and cursors are literals and the ordinary
+per-receiver typestate decides which element is held.  Nothing is executed; lock outcomes stay symbolic, closures of
+lazy adaptors are analysed when the consumer pulls an item (they may fork on a try outcome or unwind)."""
 import interp
 from interp import Agg, Const, Ref, UNIT, Undecided, MODELS, loc_s
 
@@ -37,11 +39,115 @@ def _iter(kind, fields):
     return ("agg", "iter", kind, 0, tuple(fields))
 
 
+def is_iter(v):
+    return v[0] == "agg" and v[1] == "iter"
+
+
+def _tmp_ref(st, v):
+    tf = st.fresh("t")
+    st.mem[(tf, 0)] = v
+    return Ref(("L", tf, 0, ()))
+
+
+def _call_pred(I, st, cl, arg, fn, line, depth):
+    """call a predicate closure; -> [('true'|'false'|'unwind'|other, st')]"""
+    out = []
+    for kind, val, s2 in I.call_value(st, cl, [arg], fn, line, depth, None, True):
+        if kind == "ret":
+            for b, s3 in I.fork_bool(s2, val):
+                out.append(("true" if b else "false", s3))
+        else:
+            out.append((kind, s2))
+    return out
+
+
+def nexts(I, st, it, fn, line, depth):
+    """pull one item: -> list of (tag, new_iter, item, state), tag in item|done|unwind|cut"""
+    kind = it[2]
+    if kind in ("ref", "val"):
+        v, pos = it[4]
+        lid, hi = v[2], v[4][1][1]
+        p = pos[1]
+        if p >= hi:
+            return [("done", it, None, st)]
+        el = elem_loc(lid, p)
+        item = Ref(el) if kind == "ref" else I.load(st, el)
+        return [("item", _iter(kind, [v, Const(p + 1)]), item, st)]
+    if kind.startswith("rev:"):
+        v, lo, hi = it[4]
+        if hi[1] <= lo[1]:
+            return [("done", it, None, st)]
+        el = elem_loc(v[2], hi[1] - 1)
+        item = Ref(el) if kind == "rev:ref" else I.load(st, el)
+        return [("item", _iter(kind, [v, lo, Const(hi[1] - 1)]), item, st)]
+    if kind == "enumerate":
+        inner, cnt = it[4]
+        out = []
+        for tag, ni, item, s in nexts(I, st, inner, fn, line, depth):
+            if tag == "item":
+                out.append(("item", _iter("enumerate", [ni, Const(cnt[1] + 1)]), Agg("tuple", "", 0, [cnt, item]), s))
+            else:
+                out.append((tag, _iter("enumerate", [ni, cnt]) if ni else None, None, s))
+        return out
+    if kind == "take":
+        inner, left = it[4]
+        if left[1] <= 0:
+            return [("done", it, None, st)]
+        out = []
+        for tag, ni, item, s in nexts(I, st, inner, fn, line, depth):
+            if tag == "item":
+                out.append(("item", _iter("take", [ni, Const(left[1] - 1)]), item, s))
+            else:
+                out.append((tag, _iter("take", [ni, left]) if ni else None, None, s))
+        return out
+    if kind in ("take_while", "filter"):
+        inner, cl, stopped = it[4]
+        if stopped == Const(True):
+            return [("done", it, None, st)]
+        out = []
+        work = [(inner, st, 0)]
+        while work:
+            cur, s0, hops = work.pop()
+            if hops > 8:
+                out.append(("cut", None, None, s0))
+                continue
+            for tag, ni, item, s in nexts(I, s0, cur, fn, line, depth):
+                if tag != "item":
+                    out.append((tag, _iter(kind, [ni, cl, stopped]) if ni else None, None, s))
+                    continue
+                for verdict, s2 in _call_pred(I, s, cl, _tmp_ref(s, item), fn, line, depth):
+                    if verdict == "true":
+                        out.append(("item", _iter(kind, [ni, cl, stopped]), item, s2))
+                    elif verdict == "false":
+                        if kind == "take_while":
+                            out.append(("done", _iter(kind, [ni, cl, Const(True)]), None, s2))
+                        else:
+                            work.append((ni, s2, hops + 1))
+                    else:
+                        out.append((verdict, None, None, s2))
+        return out
+    if kind in ("inspect", "map"):
+        inner, cl = it[4]
+        out = []
+        for tag, ni, item, s in nexts(I, st, inner, fn, line, depth):
+            if tag != "item":
+                out.append((tag, _iter(kind, [ni, cl]) if ni else None, None, s))
+                continue
+            arg = _tmp_ref(s, item) if kind == "inspect" else item
+            for k2, val, s2 in I.call_value(s, cl, [arg], fn, line, depth, None, True):
+                if k2 == "ret":
+                    out.append(("item", _iter(kind, [ni, cl]), item if kind == "inspect" else val, s2))
+                else:
+                    out.append((k2, None, None, s2))
+        return out
+    raise Undecided("iterator kind %s" % kind)
+
+
 def m_iter(by_value):
     def f(I, st, fn, ce, args, line, depth, dest_ty, may_unwind):
         v = as_view(I, st, args[0])
         if v is None:
-            if args[0][0] == "agg" and args[0][1] == "iter":
+            if is_iter(args[0]):
                 return [("ret", args[0], st)]
             return None
         return [("ret", _iter("val" if by_value else "ref", [v, v[4][0]]), st)]
@@ -49,74 +155,49 @@ def m_iter(by_value):
 
 
 def m_enumerate(I, st, fn, ce, args, line, depth, dest_ty, may_unwind):
-    if not (args[0][0] == "agg" and args[0][1] == "iter"):
+    if not is_iter(args[0]):
         return None
     return [("ret", _iter("enumerate", [args[0], Const(0)]), st)]
 
 
 def m_take(I, st, fn, ce, args, line, depth, dest_ty, may_unwind):
-    it = args[0]
-    if not (it[0] == "agg" and it[1] == "iter") or args[1][0] != "const":
+    if not is_iter(args[0]) or args[1][0] != "const":
         return None
-    return [("ret", _iter("take", [it, args[1]]), st)]
+    return [("ret", _iter("take", [args[0], args[1]]), st)]
 
 
 def m_skip(I, st, fn, ce, args, line, depth, dest_ty, may_unwind):
     it = args[0]
-    if not (it[0] == "agg" and it[1] == "iter") or args[1][0] != "const" or it[2] not in ("ref", "val"):
+    if not is_iter(it) or args[1][0] != "const" or it[2] not in ("ref", "val"):
         return None
     v, pos = it[4]
     hi = v[4][1][1]
     return [("ret", _iter(it[2], [v, Const(min(hi, pos[1] + args[1][1]))]), st)]
 
 
-def m_copied(I, st, fn, ce, args, line, depth, dest_ty, may_unwind):
-    it = args[0]
-    if not (it[0] == "agg" and it[1] == "iter") or it[2] not in ("ref", "val"):
-        return None
-    return [("ret", _iter("val", list(it[4])), st)]
-
-
 def m_rev(I, st, fn, ce, args, line, depth, dest_ty, may_unwind):
     it = args[0]
-    if not (it[0] == "agg" and it[1] == "iter") or it[2] not in ("ref", "val"):
+    if not is_iter(it) or it[2] not in ("ref", "val"):
         return None
     v, pos = it[4]
     return [("ret", _iter("rev:" + it[2], [v, pos, v[4][1]]), st)]
 
 
-def _next(I, st, it):
-    """returns (new_iter, item or None)"""
-    kind = it[2]
-    if kind == "take":
-        inner, left = it[4]
-        if left[1] <= 0:
-            return it, None
-        ni, item = _next(I, st, inner)
-        return _iter("take", [ni, Const(left[1] - 1)]), item
-    if kind.startswith("rev:"):
-        v, lo, hi = it[4]
-        if hi[1] <= lo[1]:
-            return it, None
-        el = elem_loc(v[2], hi[1] - 1)
-        item = Ref(el) if kind == "rev:ref" else I.load(st, el)
-        return _iter(kind, [v, lo, Const(hi[1] - 1)]), item
-    if kind in ("ref", "val"):
-        v, pos = it[4]
-        lid, hi = v[2], v[4][1][1]
-        p = pos[1]
-        if p >= hi:
-            return it, None
-        el = elem_loc(lid, p)
-        item = Ref(el) if kind == "ref" else I.load(st, el)
-        return _iter(kind, [v, Const(p + 1)]), item
-    if kind == "enumerate":
-        inner, cnt = it[4]
-        ni, item = _next(I, st, inner)
-        if item is None:
-            return _iter("enumerate", [ni, cnt]), None
-        return _iter("enumerate", [ni, Const(cnt[1] + 1)]), Agg("tuple", "", 0, [cnt, item])
-    raise Undecided("iterator kind %s" % kind)
+def m_copied(I, st, fn, ce, args, line, depth, dest_ty, may_unwind):
+    it = args[0]
+    if not is_iter(it) or it[2] not in ("ref", "val"):
+        return None
+    return [("ret", _iter("val", list(it[4])), st)]
+
+
+def m_lazy(kind):
+    def f(I, st, fn, ce, args, line, depth, dest_ty, may_unwind):
+        if not is_iter(args[0]):
+            return None
+        if kind in ("take_while", "filter"):
+            return [("ret", _iter(kind, [args[0], args[1], Const(False)]), st)]
+        return [("ret", _iter(kind, [args[0], args[1]]), st)]
+    return f
 
 
 def m_next(I, st, fn, ce, args, line, depth, dest_ty, may_unwind):
@@ -124,35 +205,114 @@ def m_next(I, st, fn, ce, args, line, depth, dest_ty, may_unwind):
     if a[0] != "ref":
         return None
     it = I.load(st, a[1])
-    if not (it[0] == "agg" and it[1] == "iter"):
+    if not is_iter(it):
         return None
-    ni, item = _next(I, st, it)
-    I.store(st, a[1], ni)
-    if item is None:
-        return [("ret", _opt(0, []), st)]
-    return [("ret", _opt(1, [item]), st)]
+    out = []
+    for tag, ni, item, s in nexts(I, st, it, fn, line, depth):
+        if tag == "item":
+            I.store(s, a[1], ni)
+            out.append(("ret", _opt(1, [item]), s))
+        elif tag == "done":
+            if ni is not None:
+                I.store(s, a[1], ni)
+            out.append(("ret", _opt(0, []), s))
+        else:
+            out.append((tag, None, s))
+    return out
+
+
+def _drain(I, st, it, fn, line, depth, on_item):
+    """consume an iterator; on_item(state, item) -> list of ('go'|'stop', value, state) | ('unwind', None, state);
+    returns list of (kind, value, state) where kind in ret-done / ret-stop / unwind / cut"""
+    outs = []
+    work = [(it, st, 0)]
+    while work:
+        cur, s0, steps = work.pop()
+        if steps > 12:
+            outs.append(("cut", "iterator drain bound", s0))
+            continue
+        for tag, ni, item, s in nexts(I, s0, cur, fn, line, depth):
+            if tag == "done":
+                outs.append(("done", None, s))
+            elif tag == "item":
+                for verdict, val, s2 in on_item(s, item):
+                    if verdict == "go":
+                        work.append((ni, s2, steps + 1))
+                    elif verdict == "stop":
+                        outs.append(("stop", val, s2))
+                    else:
+                        outs.append((verdict, val, s2))
+            else:
+                outs.append((tag, None, s))
+    return outs
 
 
 def m_for_each(I, st, fn, ce, args, line, depth, dest_ty, may_unwind):
     it = args[0]
-    if not (it[0] == "agg" and it[1] == "iter"):
+    if not is_iter(it):
         return interp.m_for_each_opaque(I, st, fn, ce, args, line, depth, dest_ty, may_unwind)
+
+    def on_item(s, item):
+        r = []
+        for kind, val, s2 in I.call_value(s, args[1], [item], fn, line, depth, None, may_unwind):
+            r.append(("go", None, s2) if kind == "ret" else (kind, val, s2))
+        return r
+    out = []
+    for kind, val, s in _drain(I, st, it, fn, line, depth, on_item):
+        out.append(("ret", UNIT, s) if kind in ("done", "stop") else (kind, val, s))
+    return out
+
+
+def m_count(I, st, fn, ce, args, line, depth, dest_ty, may_unwind):
+    it = args[0]
+    if not is_iter(it):
+        return None
+    # count by threading a counter through the drain
     outs = []
-    cur = [(it, st)]
-    while cur:
-        nxt = []
-        for it, s in cur:
-            ni, item = _next(I, s, it)
-            if item is None:
-                outs.append(("ret", UNIT, s))
-                continue
-            for kind, val, s2 in I.call_value(s, args[1], [item], fn, line, depth, None, may_unwind):
-                if kind == "ret":
-                    nxt.append((ni, s2))
-                else:
-                    outs.append((kind, val, s2))
-        cur = nxt
+    work = [(it, st, 0)]
+    while work:
+        cur, s0, n = work.pop()
+        if n > 12:
+            outs.append(("cut", "count bound", s0))
+            continue
+        for tag, ni, item, s in nexts(I, s0, cur, fn, line, depth):
+            if tag == "done":
+                outs.append(("ret", Const(n), s))
+            elif tag == "item":
+                work.append((ni, s, n + 1))
+            else:
+                outs.append((tag, None, s))
     return outs
+
+
+def m_all_any(is_all):
+    def f(I, st, fn, ce, args, line, depth, dest_ty, may_unwind):
+        it = args[0]
+        if not is_iter(it):
+            return None
+
+        def on_item(s, item):
+            r = []
+            for verdict, s2 in _call_pred(I, s, args[1], item, fn, line, depth):
+                if verdict in ("true", "false"):
+                    b = verdict == "true"
+                    if b == is_all:
+                        r.append(("go", None, s2))
+                    else:
+                        r.append(("stop", Const(not is_all), s2))
+                else:
+                    r.append((verdict, None, s2))
+            return r
+        out = []
+        for kind, val, s in _drain(I, st, it, fn, line, depth, on_item):
+            if kind == "done":
+                out.append(("ret", Const(is_all), s))
+            elif kind == "stop":
+                out.append(("ret", val, s))
+            else:
+                out.append((kind, val, s))
+        return out
+    return f
 
 
 def m_index(I, st, fn, ce, args, line, depth, dest_ty, may_unwind):
@@ -164,16 +324,30 @@ def m_index(I, st, fn, ce, args, line, depth, dest_ty, may_unwind):
     if ix[0] == "const" and isinstance(ix[1], int):
         k = lo + ix[1]
         if k >= hi:
-            s2 = st
-            I.emit(s2, {"k": "PANIC", "what": "index out of bounds"}, fn, line)
-            return [("unwind", None, s2)]
+            I.emit(st, {"k": "PANIC", "what": "index out of bounds"}, fn, line)
+            return [("unwind", None, st)]
         return [("ret", Ref(elem_loc(lid, k)), st)]
-    if ix[0] == "agg" and ix[2].endswith("Range") and len(ix[4]) == 2 and all(x[0] == "const" for x in ix[4]):
+    if ix[0] == "agg" and len(ix[4]) == 2 and all(x[0] == "const" for x in ix[4]) and \
+            (ix[2].endswith("::Range") or ix[2].endswith("::RangeInclusive")):
         a, b = ix[4][0][1], ix[4][1][1]
+        if ix[2].endswith("RangeInclusive"):
+            b += 1
         if a > b or lo + b > hi:
             I.emit(st, {"k": "PANIC", "what": "slice index out of range %d..%d of %d" % (a, b, hi - lo)}, fn, line)
             return [("unwind", None, st)]
         return [("ret", view(lid, lo + a, lo + b), st)]
+    if ix[0] == "agg" and ix[2].endswith("::RangeTo") and len(ix[4]) == 1 and ix[4][0][0] == "const":
+        b = ix[4][0][1]
+        if lo + b > hi:
+            I.emit(st, {"k": "PANIC", "what": "slice index out of range"}, fn, line)
+            return [("unwind", None, st)]
+        return [("ret", view(lid, lo, lo + b), st)]
+    if ix[0] == "agg" and ix[2].endswith("::RangeFrom") and len(ix[4]) == 1 and ix[4][0][0] == "const":
+        a = ix[4][0][1]
+        if lo + a > hi:
+            I.emit(st, {"k": "PANIC", "what": "slice index out of range"}, fn, line)
+            return [("unwind", None, st)]
+        return [("ret", view(lid, lo + a, hi), st)]
     raise Undecided("index of a modelled list with %r" % (ix,))
 
 
@@ -203,15 +377,21 @@ def install():
     M["std::iter::Iterator::rev"] = m_rev
     M["std::iter::Iterator::copied"] = m_copied
     M["std::iter::Iterator::cloned"] = m_copied
-    M["<std::iter::Copied<I> as std::iter::Iterator>::next"] = m_next
-    M["<std::iter::Cloned<I> as std::iter::Iterator>::next"] = m_next
-    M["<std::iter::Take<I> as std::iter::Iterator>::next"] = m_next
-    M["<std::iter::Rev<I> as std::iter::Iterator>::next"] = m_next
+    M["std::iter::Iterator::take_while"] = m_lazy("take_while")
+    M["std::iter::Iterator::filter"] = m_lazy("filter")
+    M["std::iter::Iterator::inspect"] = m_lazy("inspect")
+    M["std::iter::Iterator::count"] = m_count
+    M["std::iter::Iterator::all"] = m_all_any(True)
+    M["std::iter::Iterator::any"] = m_all_any(False)
     M["std::iter::Iterator::for_each"] = m_for_each
-    M["<std::slice::Iter<'a, T> as std::iter::Iterator>::next"] = m_next
-    M["<std::vec::IntoIter<T, A> as std::iter::Iterator>::next"] = m_next
-    M["<std::iter::Enumerate<I> as std::iter::Iterator>::next"] = m_next
-    M["<std::slice::Iter<'a, T> as std::iter::Iterator>::for_each"] = m_for_each
+    for n in ("std::slice::Iter<'a, T>", "std::vec::IntoIter<T, A>", "std::iter::Enumerate<I>", "std::iter::Take<I>",
+              "std::iter::Rev<I>", "std::iter::Copied<I>", "std::iter::Cloned<I>", "std::iter::TakeWhile<I, P>",
+              "std::iter::Filter<I, P>", "std::iter::Inspect<I, F>", "std::iter::Skip<I>"):
+        M["<%s as std::iter::Iterator>::next" % n] = m_next
+        M["<%s as std::iter::Iterator>::for_each" % n] = m_for_each
+        M["<%s as std::iter::Iterator>::count" % n] = m_count
+        M["<%s as std::iter::Iterator>::all" % n] = m_all_any(True)
+        M["<%s as std::iter::Iterator>::any" % n] = m_all_any(False)
     M["<std::vec::Vec<T, A> as std::ops::Index<I>>::index"] = m_index
     M["core::slice::index::<impl std::ops::Index<I> for [T]>::index"] = m_index
     M["std::vec::Vec::<T, A>::is_empty"] = m_is_empty
